@@ -5,9 +5,18 @@ type nat =
 | O
 | S of nat
 
+val option_map : ('a1 -> 'a2) -> 'a1 option -> 'a2 option
+
 val fst : ('a1 * 'a2) -> 'a1
 
+val snd : ('a1 * 'a2) -> 'a2
+
 val app : 'a1 list -> 'a1 list -> 'a1 list
+
+type comparison =
+| Eq
+| Lt
+| Gt
 
 val pred : nat -> nat
 
@@ -35,12 +44,24 @@ type positive =
 | XO of positive
 | XH
 
+type n =
+| N0
+| Npos of positive
+
 type z =
 | Z0
 | Zpos of positive
 | Zneg of positive
 
 module Pos :
+ sig
+  type mask =
+  | IsNul
+  | IsPos of positive
+  | IsNeg
+ end
+
+module Coq_Pos :
  sig
   val succ : positive -> positive
 
@@ -50,7 +71,26 @@ module Pos :
 
   val pred_double : positive -> positive
 
+  type mask = Pos.mask =
+  | IsNul
+  | IsPos of positive
+  | IsNeg
+
+  val succ_double_mask : mask -> mask
+
+  val double_mask : mask -> mask
+
+  val double_pred_mask : positive -> mask
+
+  val sub_mask : positive -> positive -> mask
+
+  val sub_mask_carry : positive -> positive -> mask
+
   val mul : positive -> positive -> positive
+
+  val compare_cont : comparison -> positive -> positive -> comparison
+
+  val compare : positive -> positive -> comparison
 
   val eqb : positive -> positive -> bool
 
@@ -59,6 +99,19 @@ module Pos :
   val to_nat : positive -> nat
 
   val of_succ_nat : nat -> positive
+ end
+
+module N :
+ sig
+  val add : n -> n -> n
+
+  val sub : n -> n -> n
+
+  val compare : n -> n -> comparison
+
+  val leb : n -> n -> bool
+
+  val ltb : n -> n -> bool
  end
 
 module Z :
@@ -78,6 +131,8 @@ module Z :
   val eqb : z -> z -> bool
 
   val to_nat : z -> nat
+
+  val to_N : z -> n
 
   val of_nat : nat -> z
  end
@@ -229,8 +284,6 @@ val aux0 : aux
 
 type ast = st * aux
 
-val a_init : ast
-
 val set_ract : aux -> nat -> aux
 
 val set_hof : aux -> nat -> nat -> aux
@@ -261,8 +314,6 @@ val bind_obj : (nat -> z) -> nat -> z -> (nat -> z) option
 
 type plan = { acts : action list; post : (st -> bool); nxt : (st -> aux) }
 
-val steps : st -> action list -> st option
-
 val guard : bool -> plan option -> plan option
 
 val ok : action list -> aux -> plan option
@@ -279,26 +330,57 @@ val is_r : aux -> nat -> bool
 
 val resume : st -> action list
 
+val cancelled : st -> aux -> nat -> plan option
+
 val plan_ev : st -> aux -> z list -> plan option
-
-val accept_ev : ast -> z list -> ast option
-
-val branch : ast -> z list -> ast list
-
-val accept1 : z list -> ast -> ast list
-
-val accept_evm : ast list -> z list -> ast list option
-
-val m_initm : ast list
 
 val vals_eqb : val0 list -> val0 list -> bool
 
 val monitors_ok : ast -> bool
 
-val monitors_okm : ast list -> bool
+type tst = { base : st; now : n; dur : n; t0 : n; dl : n; rem : n; pdl : n }
 
-val m_init : ast list
+type tact =
+| Tick of n
+| TRecvTimeout of bool * n
+| A of action
 
-val m_accept : ast list -> z list -> ast list option
+val with_base : tst -> st -> tst
 
-val m_final : ast list -> bool
+val is_first : rcvr -> bool
+
+val at_park : rcvr -> bool
+
+val at_wait : rcvr -> bool
+
+val tstep : tst -> tact -> tst option
+
+val tinit : tst
+
+type tast = tst * aux
+
+val ta_init : tast
+
+val tick_to : tst -> n -> tst option
+
+val tsteps : tst -> action list -> n -> tst option
+
+val taccept_ev : tast -> z list -> tast option
+
+val tbranch : tast -> z list -> tast list
+
+val taccept1 : z list -> tast -> tast list
+
+val taccept_evm : tast list -> z list -> tast list option
+
+val tm_initm : tast list
+
+val tmonitors_ok : tast -> bool
+
+val tmonitors_okm : tast list -> bool
+
+val m_init : tast list
+
+val m_accept : tast list -> z list -> tast list option
+
+val m_final : tast list -> bool
